@@ -332,3 +332,30 @@ fn e12_promote_untouched_page_to_root() {
     let _ = std::fs::remove_file(&p);
     assert_eq!(n, 2);
 }
+
+// E2b (C11, KNOWN FINDING, same mechanism as E2): the header write is SHORT (its first 512 bytes, which contain the whole
+// header record, reach the file) and the retry of the rest fails.  commit reports the error although the new header is
+// valid in the file and in the map; the handle must nevertheless stay consistent.
+#[test]
+fn e2b_short_header_write_then_error() {
+    let p = tmp("e2b");
+    let ctl = std::env::var("IOSHIM_CTL").expect("run through run.sh");
+    let db = OpenOptions::new().pagesize(1024).open(&p).unwrap();
+    try_commit_keys(&db, 0, 10, 50).unwrap();
+    try_commit_keys(&db, 10, 20, 50).unwrap();
+    let before = contents(&db);
+    // the next write below offset 2048 is the header write of the next commit
+    std::fs::write(&ctl, "H 2048 512").unwrap();
+    let r = try_commit_keys(&db, 20, 30, 50);
+    std::fs::write(&ctl, "-1").unwrap();
+    assert!(r.is_err(), "the injected fault must be reported");
+    let now = contents(&db);
+    let mut after = before.clone();
+    for i in 20..30u32 { after.insert(format!("key{:05}", i).into_bytes(), vec![(i % 251) as u8; 50]); }
+    assert!(now == before || now == after, "state after the failed commit is neither pre nor post");
+    for r in 0..3u32 {
+        try_commit_keys(&db, 100 + r * 10, 110 + r * 10, 50).expect("later commits must succeed");
+        db.check().expect("database inconsistent after a commit that reported an I/O error on a short header write");
+    }
+    let _ = std::fs::remove_file(&p);
+}
